@@ -1977,6 +1977,33 @@ class Interp:
                           frame=dict(s.frames[fidx]) if fidx < len(s.frames) else {})
                 res.append(Out("loopback", None, s))
             return res
+        if len(back1) == 1 and len(res) == 0 and not self.in_probe:
+            # deterministic so far (one successor, no exit): keep executing exactly instead of widening, e.g. a
+            # `for x in [a, b, c]` over a literal array.  Falls back to peel + widen as soon as an iteration forks.
+            cur = back1[0]
+            exact_res = []
+            done = False
+            for _k in range(24):
+                backs = []
+                outs_k = self.ev_block(n["body"], cur.clone(), fidx)
+                tmp = []
+                for o in outs_k:
+                    if o.kind == "brk" and o.target == lid:
+                        self.emit(o.st, "loop_exit", n, loop=lid)
+                        tmp.append(Out("val", o.val if o.val is not None else UNIT, o.st))
+                    elif o.kind == "val" or (o.kind == "cont" and o.target == lid):
+                        backs.append(o.st)
+                    else:
+                        tmp.append(o)
+                if len(backs) == 1 and not tmp:
+                    cur = backs[0]
+                    continue
+                if not backs:
+                    exact_res = tmp
+                    done = True
+                break
+            if done:
+                return exact_res
         if back1:
             assigned = self.assigned_in(n["body"])
             # cursors that moved during the first iteration on some path are advanced by an unknown amount
